@@ -107,7 +107,8 @@ def usable(x):
 def _case(t):
     cid, spec, lang, assign = t
     x = load_input(spec)
-    if not usable(x):
+    if not usable(x) or spec[1] in ('cpp/align-330.cpp',):
+        # align-330.cpp starts with a lone backslash line: whether its '#define' is a directive is read differently by uncrustify (C02-008)
         return dict(cid=cid, status='skipped')
     if not tokoracle.well_lexed(lex.lex(NL.sub(b'\n', corpus.read(spec[1])), lang)):
         return dict(cid=cid, status='input-not-well-lexed')
